@@ -44,6 +44,9 @@ impl Default for Cfg {
     }
 }
 
+/// block time at which the chain starts and the contracts are instantiated
+pub const GENESIS: u64 = 1000;
+
 pub fn deploy(cfg: &Cfg) -> Chain {
     deploy_with_tokens(cfg, &[], &[]).expect("deployment")
 }
@@ -51,7 +54,7 @@ pub fn deploy(cfg: &Cfg) -> Chain {
 /// The deployment with initial token balances (C18 quantifies over instantiate messages).
 pub fn deploy_with_tokens(cfg: &Cfg, bsei_init: &[(&str, u128)], stsei_init: &[(&str, u128)]) -> Result<Chain, String> {
     let ib = |l: &[(&str, u128)]| -> Vec<serde_json::Value> { l.iter().map(|(a, x)| json!({"address": a, "amount": x.to_string()})).collect() };
-    let mut c = Chain::new(1000, cfg.unbonding, &cfg.chain_validators);
+    let mut c = Chain::new(GENESIS, cfg.unbonding, &cfg.chain_validators);
     c.price = crate::actions::dec(cfg.price).atomics().u128();
     c.instantiate(
         Kind::Hub,
